@@ -552,6 +552,7 @@ class CodeBuilder:
             "CodeBuilder("
             "cls,dialect=dialect,"
             f"first_method='{method_name}',"
+            "allow_postponed_evaluation=False,"
             f"format_name='{self.format_name}',"
             f"default_dialect={type_name(self.default_dialect)}"
             ").add_unpack_method()"
@@ -1083,6 +1084,7 @@ class CodeBuilder:
             "CodeBuilder("
             "self.__class__,dialect=dialect,"
             f"first_method='{method_name}',"
+            "allow_postponed_evaluation=False,"
             f"format_name='{self.format_name}',"
             f"default_dialect={type_name(self.default_dialect)}"
             ").add_pack_method()"
